@@ -438,7 +438,13 @@ fn absorb_site_log(w: &mut MWorld) {
     let permit = engine::site_index("managed.get.permit").unwrap() as u16;
     let pre_acquire = engine::site_index("sync.sem.pre_acquire").unwrap() as u16;
     let post_unlock = engine::site_index("sync.mutex.post_unlock").unwrap() as u16;
+    let post_acquire = engine::site_index("sync.sem.post_acquire").unwrap() as u16;
     for (step, actor, site) in new {
+        if (site == pre_acquire || site == post_acquire) && actor != CONTROLLER {
+            if let Some(Some(opi)) = w.cur_op.get(actor) {
+                w.ops[*opi].sem_waiting = site == pre_acquire;
+            }
+        }
         if site == post_unlock && actor != CONTROLLER && w.orc.idle_prev_valid {
             // a lock region of this actor ended in this step: remember the idle queue as it
             // was when the step began (C08: what a get found when it looked for an idle object)
@@ -492,6 +498,13 @@ pub fn after_step(w: &mut MWorld, _info: &SimInfo) -> Option<Violation> {
     if let (crate::engine::Decision::Run(a), Some(crate::engine::Yield::Pending)) = (_info.last, _info.last_yield) {
         if let Some(opi) = w.cur_op.get(a).copied().flatten() {
             let op = &w.ops[opi];
+            if matches!(op.op, Op::Get { .. }) && op.eff.0 == Some(0) && op.sem_waiting && is(w, "C10") && !w.draining {
+                return Some(crate::engine::violation(
+                    "C10",
+                    "zero_wait_never_pending",
+                    "a get() with a zero wait timeout is waiting in a blocking acquire of the semaphore".into(),
+                ));
+            }
             if matches!(op.op, Op::Get { .. }) && op.calls.is_empty() && op.wait_start_ms.is_none() {
                 let wait = op.eff.0;
                 w.ops[opi].wait_start_ms = Some(_info.now_ms);
@@ -2336,7 +2349,7 @@ pub fn c10_quiescent(w: &mut MWorld, now_ms: u64) -> Option<Violation> {
         }
         if let Some(wms) = nz(op.eff.0) {
             if let Some(start) = op.wait_start_ms {
-                if op.calls.is_empty() && now_ms > start.saturating_add(wms) {
+                if (op.calls.is_empty() || op.sem_waiting) && now_ms > start.saturating_add(wms) {
                     return c10(
                         "wait_timeout_fires",
                         format!("no task is runnable at t={now_ms} ms but a get() waiting since {start} ms with a {wms} ms wait timeout is still waiting"),
